@@ -13,8 +13,37 @@ import threading
 import traceback
 
 
+import ast as _ast
+
+
+class _LazyImplies(_ast.NodeTransformer):
+    def visit_Call(self, node):
+        self.generic_visit(node)
+        if isinstance(node.func, _ast.Name) and node.func.id == 'implies' and len(node.args) == 2:
+            return _ast.BoolOp(op=_ast.Or(), values=[_ast.UnaryOp(op=_ast.Not(), operand=node.args[0]), node.args[1]])
+        return node
+
+
+_code_cache = {}
+
+
+def spec_eval(expr, ns):
+    """eval with implies(a, b) lazy in b, as in the symbolic back end"""
+    code = _code_cache.get(expr)
+    if code is None:
+        tree = _ast.parse(expr.strip(), mode='eval')
+        tree = _ast.fix_missing_locations(_LazyImplies().visit(tree))
+        code = compile(tree, '<spec>', 'eval')
+        _code_cache[expr] = code
+    return eval(code, ns)
+
+
 class Deadlock(BaseException):
     pass
+
+
+class StopLoop(BaseException):
+    """raised by a stub to leave an endless service loop after the scripted events"""
 
 
 class PreconditionFailed(Exception):
@@ -191,10 +220,59 @@ def same_float(a, b):
     return a == b and math.copysign(1.0, a) == math.copysign(1.0, b)
 
 
+# ---- opt-in (c.virtual_time) native counterparts of the symbolic models of time.sleep / time.time /
+# Thread.start / Thread.join in models2.py: calls are recorded in the trace under the same names, nothing
+# sleeps, no thread is started.  Inactive (the originals run) for contracts that do not opt in.
+_VIRT = {'ctx': None, 'installed': False}
+
+
+def _install_virtual_env():
+    if _VIRT['installed']:
+        return
+    _VIRT['installed'] = True
+    import time
+    real_sleep, real_time = time.sleep, time.time
+    real_start, real_join = threading.Thread.start, threading.Thread.join
+
+    def sleep(d):
+        ctx = _VIRT['ctx']
+        if ctx is None:
+            return real_sleep(d)
+        ctx.trace.append(('time.sleep', (d,), {}))
+        if d < 0:
+            raise ValueError('sleep length must be non-negative')
+        ctx._vclock += d
+
+    def now():
+        ctx = _VIRT['ctx']
+        if ctx is None:
+            return real_time()
+        if ctx._vscript:
+            ctx._vclock = ctx._vscript.pop(0)
+        ctx.trace.append(('time.time', (), {'value': ctx._vclock}))
+        return ctx._vclock
+
+    def start(self):
+        ctx = _VIRT['ctx']
+        if ctx is None:
+            return real_start(self)
+        ctx.trace.append(('thread:%s.start' % type(self).__name__, (self,), {}))
+
+    def join(self, timeout=None):
+        ctx = _VIRT['ctx']
+        if ctx is None:
+            return real_join(self, timeout)
+        ctx.trace.append(('thread:%s.join' % type(self).__name__, (self,), {} if timeout is None else {'timeout': timeout}))
+
+    time.sleep, time.time = sleep, now
+    threading.Thread.start, threading.Thread.join = start, join
+
+
 class NativeCtx:
     backend = 'native'
 
     def __init__(self, contract, values):
+        _VIRT['ctx'] = None
         self.contract = contract
         self.values = values
         self.trace = []
@@ -326,14 +404,14 @@ class NativeCtx:
 
     # pre / call / post
     def require(self, expr):
-        if not eval(expr, self.ns):
+        if not spec_eval(expr, self.ns):
             raise PreconditionFailed(expr)
 
     def assume_note(self, text):
         pass
 
     def snapshot(self, name, expr):
-        self.ns[name] = eval(expr, self.ns)
+        self.ns[name] = spec_eval(expr, self.ns)
         return self.ns[name]
 
     def summary(self, ref, apply):
@@ -357,12 +435,39 @@ class NativeCtx:
         except Deadlock as e:
             self.ns['raised'] = 'Deadlock'
             self.ns['exc'] = e
+        except StopLoop as e:
+            self.ns['raised'] = 'StopLoop'
+            self.ns['exc'] = e
         except Exception as e:
             self.ns['raised'] = exc_name(e)
             self.ns['exc'] = e
             self.ns['exc_tb'] = traceback.format_exc()
         self.ns['trace'] = tuple(self.trace)
         return self.ns['result']
+
+    def invoke(self, target, *args, **kwargs):
+        f = resolve(target) if isinstance(target, str) else (getattr(target[0], target[1]) if isinstance(target, tuple) else target)
+        return f(*args, **kwargs)
+
+    def raiser(self, excname, *args):
+        def f(*_a):
+            if excname == 'StopLoop':
+                raise StopLoop(*args)
+            if excname == 'Deadlock':
+                raise Deadlock(*args)
+            import builtins
+            import queue
+            cls = {'queue.Empty': queue.Empty, 'queue.Full': queue.Full, 'struct.error': struct.error}.get(excname) or getattr(builtins, excname)
+            raise cls(*args)
+        return f
+
+    def virtual_time(self, clock=None):
+        """sequential models of time.sleep/time.time/Thread.start/Thread.join for this run (see _install_virtual_env);
+        clock = the values successive time.time() calls return (afterwards: last value + slept time)"""
+        _install_virtual_env()
+        self._vscript = [float(x) for x in (clock or [])]
+        self._vclock = 1000.0
+        _VIRT['ctx'] = self
 
     def reset_trace(self):
         del self.trace[:]
@@ -372,7 +477,7 @@ class NativeCtx:
             self.results.append((name, cls, None, 'not evaluated natively'))
             return
         try:
-            ok = bool(eval(expr, self.ns))
+            ok = bool(spec_eval(expr, self.ns))
             detail = ''
         except Exception as e:
             ok = False
@@ -415,6 +520,7 @@ class NativeCtx:
         ns['sent'] = lambda name: tuple(e for e in ns.get('trace', ()) if e[0] == name)
         ns['is_same'] = lambda a, b: a is b
         ns['field'] = getattr
+        ns['queue_items'] = lambda q: tuple(q.items) if isinstance(q, NativeQueue) else tuple(q.queue)
         import binascii
         ns['crc32'] = binascii.crc32
         ns['Deadlock'] = 'Deadlock'
